@@ -211,7 +211,10 @@ def _run(pm: ProgramModel, ctx: Ctx, mb: ModelBuilder, cd: Codec) -> None:
                                  "list", "list-of-one:int", "nested-map", "empty-list", "map-with-key-abstract")}
     fr = Fragment(names=UVL_NAMES, ops=("AND", "OR", "IMPLIES", "EQUIVALENCE", "REQUIRES", "EXCLUDES"),
                   types={k_: EnumVal("FeatureType", k_, v) for k_, v in ft.items() if k_ != "BOOLEAN"},
-                  fcards=((0, 3), (1, -1), (2, 10)), values=pv, numeric=True)
+                  fcards=((0, 3), (1, -1), (2, 10)), values=pv, numeric=True,
+                  # (a top-level attribute called `abstract` has no spelling in the grammar: not among the classes)
+                  attr_names={"plain": "attr", "space": "cost per unit", "keyword": "cardinality", "type-word": "Integer",
+                              "unicode": "pre\u00e7o", "digit-first": "2nd", "punct": "x-y", "like-a-value": "true"})
     ctx.analysed.update({f"C01:pairwise-{k_}": v for k_, v in sweep(
         cd, mb, fr, ("name", "root", "parent", "relation", "constraint", "constraint-count", "abstract", "type", "fcard",
                      "attribute")).items()})
